@@ -42,8 +42,8 @@ def register(kernel):
                hyps=["(0 < num_chains_eff init nc ns)%nat"],
                gen_args="(option_map Z.of_nat init) (Z.of_nat nc) (Z.of_nat ns)",
                model="Z.of_nat (num_draws ns (num_chains_eff init nc ns))", model_name="Stats.num_draws",
-               tactic="intros init nc ns H; cbv [GEN num_draws ceil_div]; rewrite <- pyceil_div_nat by exact H; f_equal; "
-                      "revert H; cbv [num_chains_eff option_map]; tie_split; intros; tie_nat; try reflexivity; try lia", **common)
+               tactic="intros init nc ns H; revert H; cbv [GEN num_draws ceil_div num_chains_eff option_map pyceil_div]; "
+                      "tie_split; intros; tie_zarith", **common)
         kernel("C13", name="num_gibbs_steps_" + cls, target="num_gibbs_steps", loop_vars={"i": ("i", Z)},
                coq_params=[("burn_in", "Z"), ("steps", "Z"), ("i", "Z")], result=Z,
                thm_params=[("burn_in", "nat"), ("steps", "nat"), ("i", "nat")],
@@ -109,7 +109,7 @@ def register(kernel):
                coq_params=[("N", "Z"), ("pos_bs", "Z")], result=Z,
                thm_params=[("N", "nat"), ("bs", "nat")], hyps=["(0 < bs)%nat"], gen_args="(Z.of_nat N) (Z.of_nat bs)",
                model="Z.of_nat (num_batches N bs)", model_name="Protocol.num_batches", imports=["Protocol"],
-               tactic="intros N bs H; cbv [GEN num_batches]; rewrite pyceil_div_nat by exact H; do 2 f_equal; lia", **fit)
+               tactic="intros N bs H; cbv [GEN num_batches pyceil_div]; tie_zarith", **fit)
     kernel("C12", name="epoch_range", kind="range", loop_var="ep",
            inputs=[("starting_epoch", "start", Z), ("epochs", "epochs", Z)],
            coq_params=[("start", "Z"), ("epochs", "Z")], result=(Z, Z),
@@ -123,3 +123,35 @@ def register(kernel):
            thm_params=[("neg", "option nat"), ("bs", "nat")], gen_args="(option_map Z.of_nat neg) (Z.of_nat bs)",
            model="Z.of_nat (default_neg bs neg)", model_name="Batching.default_neg", imports=["Batching"],
            tactic="intros neg bs; cbv [GEN default_neg option_map truthy_oz]; destruct neg as [[|k]|]; tie_split; try reflexivity; lia", **fit)
+
+    # ------------------------------------------------------------------ C20: size defaults of the constructors
+    kernel("C20", name="binary_num_hidden", file="qucumber/rbm/binary_rbm.py", func="BinaryRBM.__init__", kind="local", target="self_num_hidden",
+           inputs=[("num_visible", "nv", Z), ("num_hidden", "nh", OZ)],
+           outputs_pat=[("self.num_hidden", "self_num_hidden"), ("self.num_visible", "self_num_visible")],
+           coq_params=[("nv", "Z"), ("nh", "option Z")], result=Z,
+           thm_params=[("nv", "nat"), ("nh", "option nat")], gen_args="(Z.of_nat nv) (option_map Z.of_nat nh)",
+           model="Z.of_nat (binary_nh nv nh)", model_name="Build.binary_nh", imports=["Build"],
+           tactic="intros nv nh; cbv [GEN binary_nh option_map truthy_oz]; destruct nh as [[|k]|]; tie_split; try reflexivity; lia")
+    for attr, arg in (("num_hidden", "nh"), ("num_aux", "na")):
+        kernel("C20", name="purification_" + attr, file="qucumber/rbm/purification_rbm.py", func="PurificationRBM.__init__", kind="local", target="self_" + attr,
+               inputs=[("num_visible", "nv", Z), ("num_hidden", "nh", OZ), ("num_aux", "na", OZ)],
+               outputs_pat=[("self.num_hidden", "self_num_hidden"), ("self.num_aux", "self_num_aux"), ("self.num_visible", "self_num_visible")],
+               coq_params=[("nv", "Z"), ("nh", "option Z"), ("na", "option Z")], result=Z,
+               thm_params=[("nv", "nat"), ("nh", "option nat"), ("na", "option nat")],
+               gen_args="(Z.of_nat nv) (option_map Z.of_nat nh) (option_map Z.of_nat na)",
+               model="Z.of_nat (purif_size nv %s)" % arg, model_name="Build.purif_size", imports=["Build"],
+               tactic="intros nv nh na; cbv [GEN purif_size option_map]; destruct %s; reflexivity" % arg)
+
+    # ------------------------------------------------------------------ C19: the size limit of the basis enumeration
+    kernel("C19", name="max_size", file="qucumber/nn_states/neural_state.py", func="NeuralStateBase.max_size",
+           inputs=[], coq_params=[("u", "unit")], result=Z, thm_params=[("u", "unit")], gen_args="u", model="Z.of_nat max_size",
+           model_name="Bits.max_size", imports=["Bits"], tactic="intros; reflexivity")
+    kernel("C19", name="hilbert_space_refused", file="qucumber/nn_states/neural_state.py", func="NeuralStateBase.generate_hilbert_space", kind="raises",
+           inputs=[("size", "size", OZ)], unused_params=["device"],
+           atoms=[("self.rbm_am.num_visible", "nv", Z), ("self.num_visible", "nv", Z), ("self.max_size", "maxs", Z)],
+           coq_params=[("size", "option Z"), ("nv", "Z"), ("maxs", "Z")], result=B,
+           thm_params=[("size", "option nat"), ("nv", "nat")],
+           gen_args="(option_map Z.of_nat size) (Z.of_nat nv) (Z.of_nat max_size)",
+           model="match generate_hilbert_space (match size with Some (S k) => S k | _ => nv end) with None => true | Some _ => false end",
+           model_name="Bits.generate_hilbert_space (refusal; default size = num_visible when size is None or 0)", imports=["Bits"],
+           tactic="intros size nv; cbv [GEN generate_hilbert_space option_map truthy_oz]; destruct size as [[|k]|]; cbn [Z.of_nat]; tie_split; tie_close")
